@@ -85,7 +85,7 @@ def check_shapes(ctx, a, rule, side_rules=("w", "r", "s")):
                     got = got.replace("each(X.items())[0]", "K")
                 else:
                     want = blocks_reader(spec.ARRAY_ITEM_R if base == "array" else spec.MAP_ITEM_R)
-                    got = renumber(got)
+                    got = renumber(got.replace("{$1:=abs($1) ", "{$1:=-$1 "))
             else:
                 got = consumption(term, keep_src=False).replace("}else{}", "}")
                 want = expected_writer(kind) if side == "w" else expected_reader(kind)
@@ -135,22 +135,22 @@ def run(ctx):
     # ---- R4 by-name fallback on both sides -----------------------------------
     ctx.rule("C01.R4", "write_data / read_data / skip_data: one table branch and one by-name branch recursing on named_schemas[...][type]", floor=3)
     want = {
-        "_write_py:write_data": ("w", W_NAMES, "ifWRITERS.get(extract_record_type(S)){T(CALL)}else{D(N[extract_record_type(S)])}"),
-        "_read_py:read_data": ("r", R_NAMES, "ifREADERS.get(extract_record_type(S)){T(CALL)}else{D(N['writer'][extract_record_type(S)])}"),
-        "_read_py:skip_data": ("r", K_NAMES, "ifSKIPS.get(extract_record_type(S)){T(CALL)}else{D(N['writer'][extract_record_type(S)])}"),
+        "_write_py:write_data": ("w", W_NAMES, "N[extract_record_type(S)]", W),
+        "_read_py:read_data": ("r", R_NAMES, "N['writer'][extract_record_type(S)]", R),
+        "_read_py:skip_data": ("r", K_NAMES, "N['writer'][extract_record_type(S)]", S),
     }
-    import re
-
-    for fid, (side, names, w) in want.items():
+    for fid, (side, names, by_name, table) in want.items():
         f = a.p.func(fid)
         term = a.shape(f, side, names)
-        got = re.sub(r"T\(\w+\)", "T(CALL)", consumption(term, keep_src=False)).replace(" handler{!}", "")
-        ctx.check("C01.R4", fid, got == w, f.where(), f"{f.qualname}: {got}", f"dispatcher shape `{got}` differs from `{w}`")
-        # the table function is called with the same codec object and the same schema
-        for t in tokens(term, ("T",)):
-            args = t[2]
-            ok = args[0] == "C" and ("S" in args)
-            ctx.check("C01.R4", f"{fid} table call arguments", ok, f.where(), f"{f.qualname}: {t[1]}({', '.join(args)})", "table function is not called with the dispatcher's own codec object and schema")
+        ts, ds = tokens(term, ("T",)), tokens(term, ("D",))
+        ids = {x.id for x in table.all_funcs()}
+        if len(ts) != 1 or len(ds) != 1 or not set(ts[0][3]) <= ids:
+            ctx.unrecognised("C01.R4", fid, f.where(), f"expected one call through {table.name} and one recursive call, found {len(ts)} / {len(ds)}")
+            continue
+        ctx.check("C01.R4", f"{fid}: unknown type names are resolved through {by_name}", ds[0][2] == by_name, f.where(), f"{f.qualname}: by-name arm recurses on {ds[0][2]}", f"a reference to a named type must be resolved as {by_name}; here it is `{ds[0][2]}`")
+        ctx.check("C01.R4", f"{fid}: table branch and by-name branch are alternatives", _exclusive(term, ts[0], ds[0]), f.where(), f"{f.qualname}: table call and by-name recursion on one path", "both the table function and the by-name recursion can run for one value")
+        args = ts[0][2]
+        ctx.check("C01.R4", f"{fid} table call arguments", args[0] == "C" and "S" in args, f.where(), f"{f.qualname}: {ts[0][1]}({', '.join(args)})", "table function is not called with the dispatcher's own codec object and schema")
 
     # ---- R5 exact consumption: stream touched only by read(n) -----------------
     ctx.rule("C01.R5", "reachable from schemaless_reader, the input stream is touched only by fo.read(n) inside BinaryDecoder", floor=5)
@@ -188,3 +188,26 @@ def run(ctx):
             par = a.parent(entry.mod, n)
             ok = isinstance(par, ast.Call) and a.p.resolve_expr(entry.mod, par.func) == ("class", dec)
             ctx.check("C01.R5", "schemaless_reader wraps fo in BinaryDecoder only", ok, entry.where(n), f"schemaless_reader: {norm(par)}", "the input stream is used directly by schemaless_reader")
+
+
+def _exclusive(term, t, d):
+    """tokens t and d lie in different branches of one `if`"""
+    from sa.shapes import flat as _f
+
+    def has(seq, tok):
+        return any(x is tok for x in _f(seq))
+
+    def walk(seq):
+        for it in seq:
+            if it[0] == "if":
+                a_t, a_d, b_t, b_d = has(it[2], t), has(it[2], d), has(it[3], t), has(it[3], d)
+                if (a_t and b_d and not a_d and not b_t) or (b_t and a_d and not b_d and not a_t):
+                    return True
+                if walk(it[2]) or walk(it[3]):
+                    return True
+            elif it[0] in ("for", "while"):
+                if walk(it[2]):
+                    return True
+        return False
+
+    return walk(term)
